@@ -182,10 +182,23 @@ def main():
         module = importlib.import_module("ka." + os.path.basename(path)[:-3])
         tree = ast.parse(open(path).read())
         res = {}
+        defs = {n.name: n for n in tree.body if isinstance(n, ast.FunctionDef)}
+
+        def reach(name, seen):
+            """the function and the same-module helpers it calls by name (a try statement moved into an extracted
+            helper still guards the same operation)"""
+            if name in seen or name not in defs:
+                return
+            seen.append(name)
+            for c in ast.walk(defs[name]):
+                if isinstance(c, ast.Call) and isinstance(c.func, ast.Name) and c.func.id not in funcs:
+                    reach(c.func.id, seen)
         for node in tree.body:
             if isinstance(node, ast.FunctionDef) and node.name in funcs:
                 tries = []
-                for t in [n for n in ast.walk(node) if isinstance(n, ast.Try)]:
+                group = []
+                reach(node.name, group)
+                for t in [n for g in group for n in ast.walk(defs[g]) if isinstance(n, ast.Try)]:
                     hs = []
                     for h in t.handlers:
                         if h.type is None:
